@@ -71,7 +71,7 @@ RevOf(p)        == p.rev
 
 NewPod(set, i, rev) ==
   [new |-> TRUE, name |-> PodName(set, i), ord |-> i, rev |-> rev, phase |-> "", ready |-> FALSE,
-   term |-> FALSE, identOK |-> TRUE, storOK |-> TRUE, member |-> TRUE, match |-> TRUE, owner |-> "self"]
+   term |-> FALSE, identOK |-> TRUE, storOK |-> TRUE, member |-> TRUE, match |-> TRUE, owner |-> "self", uidOK |-> TRUE]
 
 ---------------------------------------------------------------------------------------
 (* Revisions: ListRevisions (both label queries, de-duplicated, foreign owners         *)
@@ -106,10 +106,12 @@ FaultAt(sn, pos)  == {f \in SeqToSet(sn.faults) : f.k = pos}
 ListFault(sn, js) == \E f \in SeqToSet(sn.faults) : f.list \in js
 ListDied(sn, js)  == LET F == {f \in SeqToSet(sn.faults) : f.list \in js} IN
                      F # {} /\ (CHOOSE f \in F : \A g \in F : f.list <= g.list).die
-FaultLabel(f) == IF f.die THEN (IF f.applied THEN "DiedApplied" ELSE "Died")
-                 ELSE IF f.applied THEN f.kind \o "Applied" ELSE f.kind
+\* "applied": the request is executed and only the answer is lost - which needs a request that can be executed
+FaultLabel(f, nat) == LET ap == f.applied /\ nat = "ok" IN
+                      IF f.die THEN (IF ap THEN "DiedApplied" ELSE "Died")
+                      ELSE IF ap THEN f.kind \o "Applied" ELSE f.kind
 \* the result of the call at absolute position pos whose natural result is nat
-ResultAt(sn, pos, nat) == IF FaultAt(sn, pos) # {} THEN FaultLabel(CHOOSE f \in FaultAt(sn, pos) : TRUE) ELSE nat
+ResultAt(sn, pos, nat) == IF FaultAt(sn, pos) # {} THEN FaultLabel(CHOOSE f \in FaultAt(sn, pos) : TRUE, nat) ELSE nat
 At(sn, pos, c) == WithResult(c, ResultAt(sn, pos, c[6]))
 IsOK(c)       == c[6] = "ok"
 IsNotFound(c) == c[6] \in {"NotFound", "NotFoundApplied"}
@@ -177,7 +179,8 @@ ClaimPods(sn, base) ==
       get0     == IF Len(toAdopt) > 0 THEN <<FreshGet(sn)>> ELSE <<>>
       get      == Overlay(sn, get0, base)
       canAdopt == Len(toAdopt) > 0 /\ IsOK(get[1]) /\ sn.fresh.sameUid /\ ~sn.fresh.deleting
-      nat(p)   == IF ApiHasPod(sn, p.name) THEN "ok" ELSE "NotFound"
+      \* the patch carries the UID of the cached object: another incarnation of the pod makes it Invalid
+      nat(p)   == IF ~ApiHasPod(sn, p.name) THEN "NotFound" ELSE IF ~p.uidOK THEN "Invalid" ELSE "ok"
       rel0     == [k \in 1..Len(toRel) |-> WithResult(Call("patch", "pods", toRel[k].name, "release", <<>>), nat(toRel[k]))]
       adopt0   == IF canAdopt THEN [k \in 1..Len(toAdopt) |->
                                       WithResult(Call("patch", "pods", toAdopt[k].name, "adopt", <<>>), nat(toAdopt[k]))]
@@ -280,7 +283,8 @@ CreatePodCalls(sn, p, afterDelete) ==
   ClaimCalls(sn, p.ord) \o <<IF exists THEN WithResult(c, "AlreadyExists") ELSE c>>
 UpdatePodCalls(sn, p) ==
   (IF p.storOK THEN <<>> ELSE ClaimCalls(sn, p.ord)) \o
-  <<WithResult(Call("update", "pods", p.name, "", <<>>), IF ApiHasPod(sn, p.name) THEN "ok" ELSE "NotFound")>>
+  <<WithResult(Call("update", "pods", p.name, "", <<>>),
+               IF ~ApiHasPod(sn, p.name) THEN "NotFound" ELSE IF ~p.uidOK THEN "Conflict" ELSE "ok")>>
 DeletePodCall(sn, p, why) ==
   WithResult(Call("delete", "pods", p.name, why, <<>>), IF ApiHasPod(sn, p.name) \/ p.new THEN "ok" ELSE "NotFound")
 
